@@ -194,6 +194,133 @@ pub struct MEnv {
   pub probes: RefCell<Vec<MProbe>>,
   fuel: Cell<i64>,
   err: RefCell<Option<ModelErr>>,
+  /// shared connections of `x.ref_count()` / `x.replay()` nodes inside a pipeline, one per
+  /// node (the pipeline value is built once; every subscription of the node shares it)
+  conn_nodes: RefCell<HashMap<String, Rc<MConnNode>>>,
+}
+
+/// reference state of one ref_count() / replay() node inside a pipeline
+struct MConnNode {
+  replay: bool,
+  subs: RefCell<Vec<Obs>>,
+  history: RefCell<Vec<P>>,
+  stored: RefCell<Option<Rk>>,
+  connection: RefCell<Option<Disp>>,
+  /// the source is being subscribed right now: a disconnect requested meanwhile takes effect
+  /// when that call returns (the crate has no handle to the connection before)
+  connecting: Cell<bool>,
+}
+
+impl MConnNode {
+  fn live(&self) -> usize {
+    self.subs.borrow().iter().filter(|o| o.alive()).count()
+  }
+  /// after a subscriber left: the connection ends with the last one
+  fn recount(&self) {
+    self.subs.borrow_mut().retain(|o| o.alive());
+    if self.live() == 0 && !self.connecting.get() {
+      let c = self.connection.borrow_mut().take();
+      if let Some(c) = c {
+        c.dispose(Cause::Unsub);
+      }
+    }
+  }
+  fn push(&self, ev: Rk) {
+    match ev {
+      Rk::N(p) => {
+        if self.replay {
+          self.history.borrow_mut().push(p.clone());
+        }
+        let snap: Vec<Obs> = self.subs.borrow().iter().filter(|o| o.alive()).cloned().collect();
+        for o in snap {
+          o.next(&p);
+        }
+      }
+      term => {
+        if self.replay {
+          if self.stored.borrow().is_none() {
+            *self.stored.borrow_mut() = Some(term.clone());
+          }
+        } else {
+          // ref_count: the connection is over, the next first subscriber connects again
+          *self.connection.borrow_mut() = None;
+        }
+        let snap: Vec<Obs> = std::mem::take(&mut *self.subs.borrow_mut());
+        for o in snap {
+          match &term {
+            Rk::E(c) => o.error(*c),
+            _ => o.complete(),
+          }
+        }
+      }
+    }
+  }
+}
+
+fn sub_conn_node(env: &Rc<MEnv>, replay: bool, inner: &Node, down: Obs, d: Disp) {
+  let key = format!("{}:{:?}", replay, inner);
+  let node = env
+    .conn_nodes
+    .borrow_mut()
+    .entry(key)
+    .or_insert_with(|| {
+      Rc::new(MConnNode {
+        replay,
+        subs: RefCell::new(Vec::new()),
+        history: RefCell::new(Vec::new()),
+        stored: RefCell::new(None),
+        connection: RefCell::new(None),
+        connecting: Cell::new(false),
+      })
+    })
+    .clone();
+  if replay {
+    let hist: Vec<P> = node.history.borrow().clone();
+    let stored = node.stored.borrow().clone();
+    for p in hist {
+      down.next(&p);
+    }
+    match stored {
+      Some(Rk::E(c)) => {
+        down.error(c);
+        return;
+      }
+      Some(_) => {
+        down.complete();
+        return;
+      }
+      None => {}
+    }
+    if !down.alive() {
+      // ended inside the hand-over (take): never registered
+      return;
+    }
+  }
+  node.subs.borrow_mut().push(down.clone());
+  d.add_obs(&down);
+  {
+    let n2 = node.clone();
+    d.add(move |_c| n2.recount());
+  }
+  // a subscriber that ends by a terminal of its own making (take downstream) is noticed by
+  // the next recount; the first subscriber connects
+  if node.connection.borrow().is_none() && node.live() >= 1 {
+    let cd = Disp::new();
+    *node.connection.borrow_mut() = Some(cd.clone());
+    let (n1, n2, n3) = (node.clone(), node.clone(), node.clone());
+    let o = Obs::new(move |p| n1.push(Rk::N(p.clone())), move |c| n2.push(Rk::E(c)), move || n3.push(Rk::C));
+    cd.add_obs(&o);
+    node.connecting.set(true);
+    subscribe(env, inner, o, cd.clone());
+    node.connecting.set(false);
+    // everybody left while the source was being subscribed: the connection is dropped
+    if node.live() == 0 {
+      let c = node.connection.borrow_mut().take();
+      if let Some(c) = c {
+        c.dispose(Cause::Unsub);
+      }
+    }
+  }
 }
 
 impl MEnv {
@@ -1041,6 +1168,8 @@ fn sub_un(env: &Rc<MEnv>, op: &Op, inner: &Node, down: Obs, d: Disp) {
       }
       attempt(env, op, inner, &down, &d, 1);
     }
+    Op::RefCount => sub_conn_node(env, false, inner, down, d),
+    Op::ReplayConn => sub_conn_node(env, true, inner, down, d),
     other => {
       env.fail(ModelErr::Unsupported(format!("{:?}", other)));
     }
@@ -1732,6 +1861,7 @@ pub fn run_model_opt(case: &Case, conv: Conv, sentinel: bool) -> Result<MResult,
     probes: RefCell::new(Vec::new()),
     fuel: Cell::new(40_000),
     err: RefCell::new(None),
+    conn_nodes: RefCell::new(HashMap::new()),
   });
   let nrec = case.recorders.len();
   let sh = Rc::new(MShared {
